@@ -33,9 +33,12 @@ FIELDS = {
     "LindbladOps": {"Km": "first3", "Lm": "first3", "Ld": "first3"},
     "RDMEvolution": {"data": "first3"},
     "EvSupOp": {"data": "sup5"},
+    "TDRedfield": {"data": "sup5"},
+    "TDRedfieldOps": {"Km": "first3", "Lm": "tm4", "Ld": "tm4"},
 }
 CONTEXT_CLASSES = ("SelfAdjoint", "Hamiltonian", "HamiltonianJR", "RDM")
 COMPLEX_OK = ("Operator", "SelfAdjoint", "RDM", "SuperOp", "RelTensor", "RDMEvolution", "EvSupOp")
+LIBRARY_BUILT = ("TDRedfield", "TDRedfieldOps")     # built by the open-system builder from a small aggregate, only before any context
 ALL_CLASSES = list(FIELDS)
 
 
@@ -51,6 +54,8 @@ def tf(kind, X, T, Ti):
         return numpy.einsum("ai,jb,ijkl,kc,dl->abcd", Ti, T, X, T, Ti)
     if kind == "sup5":
         return numpy.einsum("ai,jb,tijkl,kc,dl->tabcd", Ti, T, X, T, Ti)
+    if kind == "tm4":
+        return numpy.einsum("ai,tmij,jb->tmab", Ti, X, T)
     raise HarnessError("unknown field kind " + kind)
 
 
@@ -74,7 +79,7 @@ class World:
                        "fault_unwinds_2_levels", "first_touch_at_depth_2", "apply_inside_context",
                        "dimension_mismatch_refused", "post_fault_ops_executed", "reenter_after_exit",
                        "object_is_context_operator_twice", "poke_inside_context", "secularize_inside_context",
-                       "deepcopy_inside_context", "convert_inside_context", "eso_at_inside_context", "context_operator_not_looked_at", "propagation_inside_context"]
+                       "deepcopy_inside_context", "convert_inside_context", "eso_at_inside_context", "context_operator_not_looked_at", "propagation_inside_context", "time_dependent_tensor_in_pool"]
     required_faults = ["F1_simfault", "F2_refused_write", "F3_dimension_mismatch"]
     components = {
         "real": ["Manager basis stack / registration / flags", "eigenbasis_of.__enter__/__exit__", "BasisManaged",
@@ -386,6 +391,8 @@ class Runner:
         if cls == "EvSupOp":
             a = g.uniform(-1, 1, size=(3,) + (dim,) * 4) + 1j * g.uniform(-1, 1, size=(3,) + (dim,) * 4)
             return {"data": a}
+        if cls in LIBRARY_BUILT:
+            return {"seed": int(g.integers(0, 1 << 20))}
         raise HarnessError("unknown class " + cls)
 
     def construct(self, cls, Y, dim, native=False):
@@ -430,6 +437,23 @@ class Runner:
             ev = qr.qm.ReducedDensityMatrixEvolution(self.ta, rhoi=rho)
             ev.data = Y["data"].copy()
             return ev
+        if cls in LIBRARY_BUILT:
+            g = numpy.random.Generator(numpy.random.PCG64(Y["seed"]))
+            ta = qr.TimeAxis(0.0, 6, 10.0)
+            with qr.energy_units("1/cm"):
+                mols = []
+                for i in range(dim - 1):
+                    m = qr.Molecule([0.0, 12000.0 + float(g.integers(0, 300))])
+                    cf = qr.CorrelationFunction(ta, dict(ftype="OverdampedBrownian", reorg=float(g.integers(20, 60)),
+                                                         cortime=float(g.integers(40, 120)), T=300, matsubara=10))
+                    m.set_transition_environment((0, 1), cf)
+                    mols.append(m)
+                agg = qr.Aggregate(mols)
+                for i in range(dim - 2):
+                    agg.set_resonance_coupling(i, i + 1, float(g.integers(30, 150)))
+            agg.build()
+            RT, ham = agg.get_RelaxationTensor(ta, relaxation_theory="stR", time_dependent=True, as_operators=(cls == "TDRedfieldOps"))
+            return RT
         if cls == "EvSupOp":
             H = qr.Hamiltonian(data=numpy.diag(numpy.arange(dim, dtype=float)))
             U = qr.qm.EvolutionSuperOperator(time=self.ta, ham=H)
@@ -714,6 +738,9 @@ class Runner:
         if cls not in COMPLEX_OK and not (self.kf and self.cplx) and any(l.get("complexS") for l in self.levels):
             self.ctx.ev(i, "create", cls, "noop-complex-eigenvectors")      # see blocked()
             return
+        if cls in LIBRARY_BUILT and (self.depth >= 1 or self.cplx):
+            self.ctx.ev(i, "create", cls, "noop-depth")
+            return
         Y = self.payload(cls, op["pay"], op.get("shape", "generic"), dim)
         native = bool(op.get("native")) and cls in ("RelTensor", "LindbladOps")
         try:
@@ -722,6 +749,9 @@ class Runner:
             raise Violation("create-raises", "op %d creating %s at depth %d: %s: %s" % (i, cls, self.depth, type(e).__name__, e))
         if cls == "HamiltonianJR":
             Y = {"data": numpy.array(real._data, dtype=complex), "JR": numpy.array(real.JR, dtype=complex)}
+        if cls in LIBRARY_BUILT:
+            Y = {f: numpy.array(getattr(real, f), dtype=complex) for f in FIELDS[cls]}
+            self.ctx.probe("time_dependent_tensor_in_pool")
         if native:
             # the same inputs give the same physical tensor wherever it is built: the ground truth is the
             # site-basis Lindblad form of the two projectors |0><1|, |1><0| with rates 0.1, 0.05
@@ -789,7 +819,7 @@ class Runner:
         self.ctx.cov("read", o.cls, self.depth, o.protected_at is not None)
 
     def _writable(self, o):
-        return o.protected_at is None and o.cls != "HamiltonianJR"
+        return o.protected_at is None and o.cls != "HamiltonianJR" and o.cls not in LIBRARY_BUILT
 
     def op_write(self, i, op):
         n = self.pick(op["k"], self._writable)
